@@ -319,3 +319,15 @@ func postDominators(fn *ssa.Function) map[*ssa.BasicBlock]map[*ssa.BasicBlock]bo
 	}
 	return pd
 }
+
+// elemRead decomposes an element read x[i] of a string, array or map value
+// (go/ssa uses Index for strings and arrays, Lookup for maps and older string forms).
+func elemRead(v ssa.Value) (x, idx ssa.Value, ok bool) {
+	switch e := v.(type) {
+	case *ssa.Index:
+		return e.X, e.Index, true
+	case *ssa.Lookup:
+		return e.X, e.Index, true
+	}
+	return nil, nil, false
+}
